@@ -976,7 +976,7 @@ def rule_ON(run: Run) -> RuleResult:
         if m.name.startswith("labrea.mypy"):
             continue
         for c in astu.calls_in(fn):
-            r_ = run.repo.resolve_expr(m, c.func) if isinstance(c.func, (ast.Name, ast.Attribute)) else None
+            r_ = astu.resolve_in_function(run.repo, m, fn, c.func) if isinstance(c.func, (ast.Name, ast.Attribute)) else None
             if r_ and r_[0] == "external" and r_[1] in ("copy.deepcopy", "copy.copy"):
                 copies.append((q, c.lineno, m.relpath, ast.unparse(c)[:60]))
     for q, line, rel, txt in copies:
